@@ -549,3 +549,65 @@ func Pause(r *rand.Rand) []byte {
 func IEEE1905(r *rand.Rand) []byte {
 	return append([]byte{0, 0, 0, byte(r.Intn(12)), byte(r.Intn(256)), byte(r.Intn(256)), 0, 0x80}, RandBytes(r, r.Intn(40))...)
 }
+
+// DNSMutants are DNS messages built to be ill-formed in a specific way (or well-formed but unusual).
+var DNSMutantKinds = []string{"ptr-self", "ptr-forward", "ptr-chain", "label64", "rdlen-short", "rdlen-long", "count-high", "count-low",
+	"nsec-additional", "unknown-authority", "opt-additional", "srv-compressed", "txt-additional", "question-only-response", "name-255"}
+
+// DNSMutant builds one of the special messages.
+func DNSMutant(r *rand.Rand, e Env, kind string) []byte {
+	m := refdec.NewDNSMsg(uint16(r.Intn(65536)), 0x8400)
+	b := refdec.DNSBuilder{Compress: r.Intn(2) == 0}
+	a, _ := e.IP4(r)
+	good := refdec.DNSRR{Name: "host.local", Type: refdec.TypeA, Class: 1, TTL: 120, Addr: a}
+	switch kind {
+	case "ptr-self":
+		m.An = []refdec.DNSRR{{RawName: []byte{0xc0, 12}, Type: refdec.TypeA, Class: 1, TTL: 1, Addr: a}}
+	case "ptr-forward":
+		m.An = []refdec.DNSRR{{RawName: []byte{3, 'a', 'b', 'c', 0xc0, 0xff}, Type: refdec.TypeA, Class: 1, TTL: 1, Addr: a}}
+	case "ptr-chain":
+		// question name at 12, then records whose names are pointers to pointers
+		m.Q = []refdec.DNSQ{{Name: "a.very.long.name.example.com", Type: 1, Class: 1}}
+		m.An = []refdec.DNSRR{{RawName: []byte{0xc0, 12}, Type: refdec.TypeCNAME, Class: 1, TTL: 1, TargetRaw: []byte{1, 'x', 0xc0, 14}},
+			{RawName: []byte{1, 'y', 0xc0, 12 + 34}, Type: refdec.TypeA, Class: 1, TTL: 1, Addr: a}}
+	case "label64":
+		raw := append([]byte{64}, make([]byte, 64)...)
+		m.An = []refdec.DNSRR{{RawName: append(raw, 0), Type: refdec.TypeA, Class: 1, TTL: 1, Addr: a}}
+	case "rdlen-short":
+		good.RDLenDelta = -1 - r.Intn(3)
+		m.An = []refdec.DNSRR{good, good}
+	case "rdlen-long":
+		good.RDLenDelta = 1 + r.Intn(300)
+		m.An = []refdec.DNSRR{good}
+	case "count-high":
+		m.An = []refdec.DNSRR{good}
+		m.AN = 2 + r.Intn(65000)
+	case "count-low":
+		m.An = []refdec.DNSRR{good, good, good}
+		m.AN = 1
+	case "nsec-additional":
+		m.An = []refdec.DNSRR{good}
+		m.Ar = []refdec.DNSRR{{Name: "host.local", Type: refdec.TypeNSEC, Class: 0x8001, TTL: 120, RData: []byte{0xc0, 12, 0, 4, 0x40, 0, 0, 8}}}
+	case "unknown-authority":
+		m.Ns = []refdec.DNSRR{{Name: "host.local", Type: uint16(60 + r.Intn(100)), Class: 1, TTL: 1, RData: RandBytes(r, r.Intn(20))}, good}
+	case "opt-additional":
+		m.An = []refdec.DNSRR{good}
+		m.Ar = []refdec.DNSRR{{Name: "", Type: refdec.TypeOPT, Class: 1440, TTL: 0x1194, RData: []byte{0, 4, 0, 14, 0, 0, 1, 2, 3, 4, 5, 6, 7, 8, 9, 10, 11, 12}}}
+	case "srv-compressed":
+		b.Compress = true
+		m.An = []refdec.DNSRR{{Name: "svc._tcp.local", Type: refdec.TypeSRV, Class: 1, TTL: 120, Target: "host.local"}, good}
+		m.Ar = []refdec.DNSRR{{Name: "svc._tcp.local", Type: refdec.TypeSRV, Class: 1, TTL: 120, Target: "host.local"}}
+	case "txt-additional":
+		m.Ar = []refdec.DNSRR{{Name: "dev._device-info._tcp.local", Type: refdec.TypeTXT, Class: 1, TTL: 1, RData: []byte{19, 'm', 'o', 'd', 'e', 'l', '=', 'M', 'a', 'c', 'B', 'o', 'o', 'k', 'P', 'r', 'o', '1', '4', ',', 1, 'a', 1, 'b'}}, good}
+	case "question-only-response":
+		m.Q = []refdec.DNSQ{{Name: "host.local", Type: 255, Class: 1}}
+	case "name-255":
+		var raw []byte
+		for i := 0; i < 5; i++ {
+			raw = append(raw, 63)
+			raw = append(raw, make([]byte, 63)...)
+		}
+		m.An = []refdec.DNSRR{{RawName: append(raw, 0), Type: refdec.TypeA, Class: 1, TTL: 1, Addr: a}}
+	}
+	return b.Build(m)
+}
